@@ -150,6 +150,17 @@ def oracle(c, case, r):
         if r[path] != rootid and r["ids_after"].get(str(case["root"])) == rootid:
             c.violation("C12:path-differs:" + path + own, "another save/load path gives another identifier",
                         dict(desc=desc, root=case["root"], got=r[path], want=rootid))
+    # the state loaded by a later version of the code (changed constant, class extended with defaulted parameters)
+    if r.get("later_code_changed"):
+        c.count("later-code-reload")
+        if "later_code_error" in r:
+            c.violation("C12:later-code-reload-raises", "loading a state into the later version of a class raised: "
+                        + r["later_code_error"][:80], dict(desc=desc, root=case["root"]))
+        elif r.get("id_later_code") != r["id_state_dict"]:
+            c.violation("C12:later-code-reload-changes-identifier" + own,
+                        "a state loaded by a later version of the code (other constant / added defaulted parameters) "
+                        "does not keep its identifier", dict(desc=desc, root=case["root"], got=r.get("id_later_code"),
+                                                             want=r["id_state_dict"]))
     for path in ("raw_state_dict", "raw_save_load"):
         if r.get(path) != r.get("raw_root_before"):
             c.violation("C12:raw-identifier-differs:" + path + own, "the raw identifier of a reloaded configuration differs from the original",
